@@ -101,7 +101,7 @@ def protocol_traces(seed, count, length):
             spread.append((t, j))
             m["uc"] = rng.random() > 0.1
             m["es"] = rng.choice([[], [], [{"ty": "offer", "svc": "s1", "ttl": 3, "opts": []}],
-                                  [{"ty": "find", "svc": "s1", "ttl": 3, "opts": []}]])
+                                  [{"ty": "find", "svc": "f1", "ttl": 3, "opts": []}]])
         ev, missed = run_protocol(seq, spread)
         traces.append({"cfg": cfg, "ev": monpass.add_adv(ev), "sched": seq, "spread": spread, "mode": "protocol"})
     return traces
